@@ -16,7 +16,7 @@ func init() {
 		LevelText:   "Structural clauses decided for all paths: every store to the high watermark anywhere in the module is either pre-publication or guarded by new > old under the log's write lock; only the three named writers call SetHighWatermark; the waiter protocol re-checks the watermark and registers the waiter inside one critical section and notifications cannot block; the committed reader's read limit on the watermark segment is min(len, hwPos-pos), it re-synchronises the watermark position after every wake-up, and parked readers cannot reach the read loop without a watermark change; subscriptions always create committed readers. Exactly-once / eventual delivery under all schedules is not decided.",
 		LevelNote:   "Trusted: go/ssa, the lock table (commitLog.hw, hwWaiters under commitLog.mu), the frozen writer list; liveness and data equality need execution.",
 		DesignRef:   "DESIGN.md §4 C03",
-		Explanation: "R01.14 (shared) the list a parked reader searches is fetched after the wait. R03.4 also: a reader whose cached watermark segment was replaced re-initialises before it reads (F98); R03.7 also: the queued read-only signal is re-checked when the reader acts on it (F101). R03.14 a committed reader is positioned in a segment only when something is committed (F92); R03.15 the parked committed reader waits on a source the append path signals (known finding K16). R03.12 ReadAt answers from the file, not from a remembered end; R03.13 Append re-tests read-only between taking the log lock and the write, SetReadonly publishes the flag before it takes the lock (F86). R03.1 monotonic stores to commitLog.hw (all stores discovered), R03.2 who may call SetHighWatermark, R03.3 lost-wake-up freedom of waitForHW/notify*, R03.4 read limit and re-sync after wake-up, R03.5 subscriptions use committed readers, R03.6 parked readers, R03.7 read-only end of log, R03.8 lock pairing, R03.9 end-of-log announced only at the current watermark, R01.9 (shared) reader segment / resume provenance; R03.1 also requires the new > old test to run under the same write-lock hold as the store. R03.10 a reader's Read fills the buffer or reports an error (path property over both context readers). NOT decided: exactly-once and eventual delivery, stale hwPos across concurrent segment replacement.",
+		Explanation: "Round 12: R09.7 (shared) segments rolled while a cleaning pass ran are re-attached on every path. R01.14 (shared) the list a parked reader searches is fetched after the wait. R03.4 also: a reader whose cached watermark segment was replaced re-initialises before it reads (F98); R03.7 also: the queued read-only signal is re-checked when the reader acts on it (F101). R03.14 a committed reader is positioned in a segment only when something is committed (F92); R03.15 the parked committed reader waits on a source the append path signals (known finding K16). R03.12 ReadAt answers from the file, not from a remembered end; R03.13 Append re-tests read-only between taking the log lock and the write, SetReadonly publishes the flag before it takes the lock (F86). R03.1 monotonic stores to commitLog.hw (all stores discovered), R03.2 who may call SetHighWatermark, R03.3 lost-wake-up freedom of waitForHW/notify*, R03.4 read limit and re-sync after wake-up, R03.5 subscriptions use committed readers, R03.6 parked readers, R03.7 read-only end of log, R03.8 lock pairing, R03.9 end-of-log announced only at the current watermark, R01.9 (shared) reader segment / resume provenance; R03.1 also requires the new > old test to run under the same write-lock hold as the store. R03.10 a reader's Read fills the buffer or reports an error (path property over both context readers). NOT decided: exactly-once and eventual delivery, stale hwPos across concurrent segment replacement.",
 	})
 }
 
@@ -30,6 +30,9 @@ const (
 func runC03(c *eng.Ctx) {
 	c.Rule("R05.2", "K3")
 	ruleHWCheckpointIsReplacedAtomically(c)
+	// (shared with C08/C09/C11) segments rolled while a cleaning pass ran stay in the list a committed reader walks
+	c.Rule("R09.7", "K1")
+	ruleCleanSwap(c)
 	// (shared with C08/C10) a reader recognises a replaced or removed segment whatever wraps the error on its way up
 	ruleSentinelIdentity(c, "R14.6", []string{cl + "(*Reader).ReadMessage", cl + "(*ReverseReader).ReadMessage"}, "the reader does not notice that the segment it was reading was replaced (compaction, truncation) or removed (retention): it fails instead of re-positioning itself and carrying on")
 
